@@ -45,7 +45,7 @@ m = {
         "name": "uqcheck",
         "path": "checker/",
         "serves_properties": sorted(CLAIMED),
-        "kind_free_text": "repository-specific static analyser over go/packages + go/ssa: graph-cut must-pass-through (CUT), who-may-write/call (WMW), effect pairing (PAIR), extracted-table agreement (TABLE), Append/Length sibling agreement (LEN), upper-bound provenance (UB), constants vs RFC reference (CONST), nil discipline (NIL), sibling/override agreement (SIB), value-origin slicing (ORG), wait-site vs shutdown reachability (WAIT). Thorough tier (tools/thorough.sh): same rules re-evaluated for GOARCH=386 plus a sensitivity audit applying the confirmed seeded changes of seeded/ to scratch copies of the current tree",
+        "kind_free_text": "repository-specific static analyser over go/packages + go/ssa: graph-cut must-pass-through with helper inlining, return-value and boolean-flag sensitivity (CUT), who-may-write/call (WMW), effect pairing (PAIR), extracted-table agreement (TABLE), Append/Length sibling agreement (LEN), upper-bound provenance (UB), constants vs RFC reference (CONST), nil discipline (NIL), sibling/override agreement (SIB), value-origin slicing (ORG), wait-site vs shutdown reachability and no-lost-wake-up (WAIT), bounds obligations discharged by the compiler's prove pass or length facts (BND), lockset / guarded-by / lock pairing (LOCK), error discipline (ERR), switch exhaustiveness (EXH). Thorough tier (tools/thorough.sh): ERR/EXH widened to every function of the anchored files, the same rules re-evaluated for GOARCH=386, GOOS=windows and GOOS=darwin, plus a sensitivity audit (confirmed seeded changes of seeded/ applied to scratch copies of the current tree) and a specificity audit (behaviour-preserving refactorings of benign/)",
     }],
     "checks": checks,
     "not_applicable": [{"property_id": k, "reason": v} for k, v in sorted(NOT_APPLICABLE.items())],
